@@ -164,3 +164,38 @@ func Relation(s Snap, cwd, a, b string) string {
 	}
 	return "other"
 }
+
+// Physical returns the path p names after following symbolic links in
+// intermediate positions (and in the last position when followLast is set),
+// as far as the snapshot allows; missing tails are kept lexically.
+func Physical(s Snap, cwd, p string, followLast bool) string {
+	if p == "" {
+		return cwd
+	}
+	_, phys, _, _ := resolve(s, absOf(cwd, p), followLast)
+	return phys
+}
+
+// Retarget rewrites the absolute /-paths of an op for a Windows-typed file
+// system (volume C:, backslash separators); relative paths get backslashes.
+func Retarget(o Op, windows bool) Op {
+	if !windows {
+		return o
+	}
+	conv := func(p string) string {
+		if strings.HasPrefix(p, "/") && !strings.HasPrefix(p, "//") {
+			return `C:` + strings.ReplaceAll(p, "/", `\`)
+		}
+		return strings.ReplaceAll(p, "/", `\`)
+	}
+	o.P = conv(o.P)
+	if o.K == "Symlink" {
+		o.P, o.P2 = strings.ReplaceAll(o.P, "/", `\`), conv(o.P2)
+		if strings.HasPrefix(o.P, `C:`) {
+			// keep absolute targets absolute
+		}
+	} else {
+		o.P2 = conv(o.P2)
+	}
+	return o
+}
